@@ -4,9 +4,15 @@
 
   * the pinned loops do not end: `entry_spins` (every Get SEL Entry answered CAh: all fuel is used,
     for every fuel), `gac_cancel_round` / `gac_spins` (every Get answered C5h);
-  * the repaired loops: `entry_bound` (≤ 33 requests whatever the script), `entry_gives_up`
-    (CAh for ever: RetryError after exactly 17), `gac_bound` (≤ 35 requests per round of the budget),
-    `gac_spins` (C5h for ever: RetryError after 2·budget requests);
+  * a completed answer WITHOUT a record byte (`Caps.zero`) is asked for again, for ever, by every
+    variant that lacks the empty-answer stop - today's tree after 8f8257b included:
+    `entry_spins_empty` (`fuel` identical requests for every fuel), `gac_never_returns_empty`;
+  * the repaired loops: `entry_bound_gen` (≤ 33 requests: 17 lengths + 16 bytes) under `Progress` -
+    ANY peer if the loop has the empty-answer stop (`progress_any`), the scripted device with short
+    answers of ≥ 1 byte if it has not (`progress_script`) -, `entry_empty_gives_up` (RetryError on the
+    empty answer itself), `entry_gives_up` (CAh for ever: RetryError after exactly 17), `gac_bound_gen`
+    (≤ 35 requests per round of the budget), `gac_spins` (C5h for ever: RetryError after 2·budget
+    requests);
   * a failed Reserve SEL ends get-and-clear with that error, nothing is sent after it
     (`gac_reserve_failure`, any peer).
 -/
@@ -20,21 +26,28 @@ open PyIpmi.FruXfer (Wire Xchg Send World Res xchg castErr)
 
 theorem wireByte_lt (i : Int) : wireByte i < 256 := by unfold wireByte; omega
 
+@[simp] theorem advance_entry (d : ScriptSel) : d.advance.entry = d.entry := rfl
+@[simp] theorem advance_next (d : ScriptSel) : d.advance.next = d.next := rfl
+@[simp] theorem advance_rplan (d : ScriptSel) : d.advance.rplan = d.rplan := rfl
+@[simp] theorem advance_lastRes (d : ScriptSel) : d.advance.lastRes = d.lastRes := rfl
+@[simp] theorem advance_script (d : ScriptSel) : d.advance.script = d.script.next.2 := rfl
+@[simp] theorem advance_caps (d : ScriptSel) : d.advance.caps = d.caps.next.2 := rfl
+
 theorem script_get_cc (d : ScriptSel) (r rid off len : Nat) (h : d.script.next.1.code ≠ 0) :
     scriptSend d (getReq r rid off len).cmd (getReq r rid off len).payload =
-      ({ d with script := d.script.next.2 }, [d.script.next.1.code]) := by
+      (d.advance, [d.script.next.1.code]) := by
   simp [scriptSend, getReq, h]
 
 theorem script_get_ok (d : ScriptSel) (r rid off len : Nat) (hoff : off < 256) (hlen : len < 256)
     (h : d.script.next.1.code = 0) :
     scriptSend d (getReq r rid off len).cmd (getReq r rid off len).payload =
-      ({ d with script := d.script.next.2 }, 0 :: d.next % 256 :: d.next / 256 % 256 ::
-        (if len = 0xFF then d.entry.drop off else (d.entry.drop off).take len)) := by
+      (d.advance, 0 :: d.next % 256 :: d.next / 256 % 256 ::
+        cut d.caps.next.1 (if len = 0xFF then d.entry.drop off else (d.entry.drop off).take len)) := by
   simp [scriptSend, getReq, leBytes, h, Nat.mod_eq_of_lt hoff, Nat.mod_eq_of_lt hlen]
 
 theorem script_delete_cc (d : ScriptSel) (r rid : Nat) (h : d.script.next.1.code ≠ 0) :
     scriptSend d (deleteReq r rid).cmd (deleteReq r rid).payload =
-      ({ d with script := d.script.next.2 }, [d.script.next.1.code]) := by
+      (d.advance, [d.script.next.1.code]) := by
   simp [scriptSend, deleteReq, h]
 
 theorem script_reserve_nil (d : ScriptSel) (h : d.rplan = []) :
@@ -44,6 +57,34 @@ theorem script_reserve_nil (d : ScriptSel) (h : d.rplan = []) :
   simp [scriptSend, reserveReq, h, ScriptSel.grant]
 
 theorem script_next_tail (t : Letter) : (⟨[], t⟩ : Script).next = (t, ⟨[], t⟩) := rfl
+
+theorem caps_zero_next : Caps.zero.next = (some 0, Caps.zero) := rfl
+
+theorem cut_zero (data : List Nat) : cut (some 0) data = [] := by simp [cut]
+
+theorem Caps.Positive.next {c : Caps} (h : c.Positive) :
+    c.next.2.Positive ∧ ∀ k, c.next.1 = some k → 1 ≤ k := by
+  unfold Caps.next
+  cases hp : c.pre with
+  | nil => simp only; exact ⟨h, h.2⟩
+  | cons x rest =>
+    simp only
+    refine ⟨⟨?_, h.2⟩, ?_⟩
+    · intro k hk; exact h.1 k (by rw [hp]; exact List.mem_cons_of_mem _ hk)
+    · intro k hk; exact h.1 k (by rw [hp, hk]; exact List.mem_cons_self)
+
+theorem caps_full_positive : Caps.full.Positive := by
+  unfold Caps.Positive Caps.full
+  exact ⟨(by intro k h; cases h), (by intro k h; cases h)⟩
+
+/-- a cap that leaves a byte leaves a non-empty answer non-empty -/
+theorem cut_length_pos (cap : Option Nat) (data : List Nat) (hc : ∀ k, cap = some k → 1 ≤ k)
+    (hd : 1 ≤ data.length) : 1 ≤ (cut cap data).length := by
+  cases cap with
+  | none => exact hd
+  | some k =>
+    have := hc k rfl
+    simp only [cut, List.length_take]; omega
 
 /-! ### as shipped: the loops do not end -/
 
@@ -68,11 +109,42 @@ theorem entry_spins : ∀ (fuel : Nat) (w : World ScriptSel) (res rid : Nat) (m 
     unfold entryLoop
     simp only [xchg, script_get_cc _ _ _ _ _ hc, hc', decodeGet_cc 202 (by decide), std_ccShrink, if_true,
       shrink_asShipped]
-    have := ih ⟨{ w.dev with script := w.dev.script.next.2 },
+    have := ih ⟨w.dev.advance,
       w.trace ++ [⟨getReq res rid acc.length (wireByte (reqLen stdCfg m acc.length)), [202]⟩]⟩ res rid
       (if m = (stdCfg.entire : Int) then (stdCfg.full : Int) else m - (stdCfg.step : Int)) acc hn
     refine ⟨this.1, ?_⟩
     rw [this.2]; simp only [List.length_append, List.length_singleton]; omega
+
+/-- **get_sel_entry without the empty-answer stop, every request "completed" without a record
+byte** (`00 next-lo next-hi`): nothing is appended, the offset stays, the length stays - whatever
+fuel the model is given, all of it is used on `fuel` IDENTICAL requests, no result.  The floor of
+`max_req_len` (8f8257b) does not help: no request is refused. -/
+theorem entry_spins_empty (v : Variant) (hv : v.emptyStop = false) :
+    ∀ (fuel : Nat) (w : World ScriptSel) (res rid : Nat) (m : Int) (acc : List Nat),
+    w.dev.script = ⟨[], .completed⟩ → w.dev.caps = Caps.zero → acc.length < 16 →
+    (entryLoop stdCfg v scriptSend fuel w res rid m acc).out = .pyError "nontermination" ∧
+    (entryLoop stdCfg v scriptSend fuel w res rid m acc).w.trace = w.trace ++ List.replicate fuel
+      ⟨getReq res rid acc.length (wireByte (reqLen stdCfg m acc.length)),
+        [0, w.dev.next % 256, w.dev.next / 256 % 256]⟩ := by
+  intro fuel
+  induction fuel with
+  | zero => intro w res rid m acc _ _ _; exact ⟨rfl, by simp [entryLoop]⟩
+  | succ fuel ih =>
+    intro w res rid m acc hs hcp hal
+    have hc : w.dev.script.next.1.code = 0 := by rw [hs]; rfl
+    have hn : w.dev.script.next.2 = ⟨[], .completed⟩ := by rw [hs]; rfl
+    have hcap : w.dev.caps.next.1 = some 0 := by rw [hcp]; rfl
+    have hcn : w.dev.caps.next.2 = Caps.zero := by rw [hcp]; rfl
+    unfold entryLoop
+    simp only [xchg, script_get_ok _ _ _ _ _ (show acc.length < 256 by omega) (wireByte_lt _) hc, hcap, cut_zero,
+      decodeGet_ok, std_ccShrink, std_recLen, show (0 : Nat) = 202 ↔ False by decide, if_false, ne_eq,
+      not_true_eq_false, emptyAnswer_nil, hv, Bool.false_eq_true, List.append_nil, ge_iff_le,
+      show ¬ 16 ≤ acc.length by omega]
+    have := ih ⟨w.dev.advance, w.trace ++ [⟨getReq res rid acc.length (wireByte (reqLen stdCfg m acc.length)),
+      [0, w.dev.next % 256, w.dev.next / 256 % 256]⟩]⟩ res rid m acc hn hcn hal
+    refine ⟨this.1, ?_⟩
+    rw [this.2]
+    simp only [advance_next, List.append_assoc, List.singleton_append, List.replicate_succ]
 
 /-- One round of get-and-clear against "every Get SEL Entry is answered C5h". -/
 theorem gac_spins (v : Variant) : ∀ (n : Nat) (w : World ScriptSel) (rid : Nat),
@@ -108,7 +180,7 @@ theorem gac_spins (v : Variant) : ∀ (n : Nat) (w : World ScriptSel) (rid : Nat
       · exact hp1
       · simp only [List.length_append, List.length_singleton, hl1]; omega
 
-/-! ### repaired: bounded for every script -/
+/-! ### repaired: bounded -/
 
 /-- `max_req_len` has a floor at 0 (the repaired get_sel_entry). -/
 def Floored (v : Variant) : Prop := v.floor = some 0
@@ -130,87 +202,191 @@ def entryMeasure (m : Nat) (acc : List Nat) : Nat := (if m = 255 then 17 else m)
 theorem entryMeasure_pos (m : Nat) (acc : List Nat) (h : acc.length < 16) : 1 ≤ entryMeasure m acc := by
   unfold entryMeasure; omega
 
-/-- **get_sel_entry repaired, ANY outcome script**: the loop ends (never out of fuel) after at most
-`entryMeasure` requests - 17 shrink steps (FFh, 16 … 1) plus one request per byte at worst. -/
-theorem entry_bound (v : Variant) (hv : Floored v) :
-    ∀ (fuel : Nat) (w : World ScriptSel) (res rid m : Nat) (acc : List Nat),
-      w.dev.entry.length = 16 → acc.length < 16 → ((m = 255 ∧ acc = []) ∨ (1 ≤ m ∧ m ≤ 16)) →
-      entryMeasure m acc + 1 ≤ fuel →
-      (entryLoop stdCfg v scriptSend fuel w res rid (m : Int) acc).out ≠ .pyError "nontermination" ∧
-      (entryLoop stdCfg v scriptSend fuel w res rid (m : Int) acc).w.trace.length ≤ w.trace.length + entryMeasure m acc ∧
-      (entryLoop stdCfg v scriptSend fuel w res rid (m : Int) acc).w.dev.entry = w.dev.entry := by
+theorem decodeGet_ne_py (raw : List Nat) (s : String) : decodeGetRsp raw ≠ .pyError s := by
+  unfold decodeGetRsp
+  split
+  · intro h; cases h
+  · split
+    · intro h; cases h
+    · split <;> intro h <;> cases h
+
+/-- **What makes get_sel_entry end.**  On the device states `P` (kept by every exchange): the loop
+has the empty-answer stop, OR the peer never "completes" a read of 1 … 255 bytes at an offset inside
+the record without at least one record byte.  Then every answer is a step down of the length (CAh),
+at least one byte of progress, or the end of the call. -/
+structure Progress {σ : Type} (v : Variant) (send : Send σ) (P : σ → Prop) : Prop where
+  keep : ∀ (d : σ) (cmd : Nat) (p : List Nat), P d → P (send d cmd p).1
+  prog : v.emptyStop = true ∨
+    ∀ (d : σ) (res rid off len next : Nat) (data : List Nat), P d → off < 16 → 1 ≤ len → len < 256 →
+      decodeGetRsp (send d (getReq res rid off len).cmd (getReq res rid off len).payload).2 = .ok (0, next, data) →
+      data ≠ []
+
+/-- ANY peer makes progress for a loop with the empty-answer stop. -/
+theorem progress_any {σ : Type} (v : Variant) (he : v.emptyStop = true) (send : Send σ) :
+    Progress v send (fun _ => True) := ⟨fun _ _ _ _ => trivial, Or.inl he⟩
+
+/-- **get_sel_entry with a floor of the length, under `Progress`**: the loop ends (never out of
+fuel) after at most `entryMeasure` requests - 17 shrink steps (FFh, 16 … 1) plus one request per
+byte at worst. -/
+theorem entry_bound_gen {σ : Type} (v : Variant) (hv : Floored v) (send : Send σ) (P : σ → Prop)
+    (hp : Progress v send P) :
+    ∀ (fuel : Nat) (w : World σ) (res rid m : Nat) (acc : List Nat),
+      P w.dev → acc.length < 16 → (m = 255 ∨ (1 ≤ m ∧ m ≤ 16)) → entryMeasure m acc + 1 ≤ fuel →
+      (entryLoop stdCfg v send fuel w res rid (m : Int) acc).out ≠ .pyError "nontermination" ∧
+      (entryLoop stdCfg v send fuel w res rid (m : Int) acc).w.trace.length ≤ w.trace.length + entryMeasure m acc ∧
+      P (entryLoop stdCfg v send fuel w res rid (m : Int) acc).w.dev := by
   have hfl := floored_floorOk hv
   intro fuel
   induction fuel with
   | zero => intro w res rid m acc _ _ _ hfu; omega
   | succ fuel ih =>
-    intro w res rid m acc he hal hm hfu
-    have hm256 : m < 256 := by rcases hm with ⟨h, _⟩ | ⟨_, h⟩ <;> omega
+    intro w res rid m acc hP hal hm hfu
+    have hm256 : m < 256 := by rcases hm with h | ⟨_, h⟩ <;> omega
     have hpos : 1 ≤ entryMeasure m acc := entryMeasure_pos m acc hal
     unfold entryLoop
     simp only [wire_reqLen m acc.length hm256 (by omega)]
     generalize hq : reqLenN m acc.length = len
-    have hlenlt : len < 256 := by rw [← hq]; unfold reqLenN; split <;> omega
+    have hlen : 1 ≤ len ∧ len < 256 := by
+      rw [← hq]; unfold reqLenN
+      rcases hm with h | ⟨h1, h16⟩ <;> split <;> omega
     simp only [std_ccShrink, std_recLen, xchg]
-    by_cases hc0 : w.dev.script.next.1.code = 0
-    · -- served
-      rw [script_get_ok _ _ _ _ _ (by omega) hlenlt hc0]
-      simp only [decodeGet_ok, show (0 : Nat) = 202 ↔ False by decide, if_false, ne_eq, not_true_eq_false]
-      rcases hm with ⟨hm, ha⟩ | ⟨hm1, hm16⟩
-      · subst hm; subst ha
-        have : len = 255 := by rw [← hq]; simp [reqLenN]
-        subst this
-        simp only [if_true, List.length_nil, List.drop_zero, List.nil_append, he, ge_iff_le, Nat.le_refl]
-        exact ⟨selEntry_ne_py _ _ _, (by simp only [List.length_append, List.length_singleton]; omega), (by first | rfl | trivial)⟩
-      · have hm255 : m ≠ 255 := by omega
-        have hq' : len = if acc.length + m > 16 then 16 - acc.length else m := by
-          rw [← hq]; simp [reqLenN, hm255]
-        have hq1 : 1 ≤ len := by rw [hq']; split <;> omega
-        have hq3 : acc.length + len ≤ 16 := by rw [hq']; split <;> omega
-        have hn255 : ¬ len = 255 := by omega
-        simp only [hn255, if_false]
-        have hnl : (acc ++ (w.dev.entry.drop acc.length).take len).length = acc.length + len := by
-          simp only [List.length_append, List.length_take, List.length_drop, he]; omega
-        rw [hnl]
-        by_cases hdone : acc.length + len ≥ 16
-        · simp only [hdone, if_true]
-          exact ⟨selEntry_ne_py _ _ _, (by simp only [List.length_append, List.length_singleton]; omega), (by first | rfl | trivial)⟩
-        · simp only [hdone, if_false]
-          have := ih ⟨{ w.dev with script := w.dev.script.next.2 }, w.trace ++ [⟨getReq res rid acc.length len,
-            0 :: w.dev.next % 256 :: w.dev.next / 256 % 256 :: (w.dev.entry.drop acc.length).take len⟩]⟩ res rid m
-            (acc ++ (w.dev.entry.drop acc.length).take len) he (by rw [hnl]; omega) (Or.inr ⟨hm1, hm16⟩)
-            (by simp only [entryMeasure, if_neg hm255, hnl] at hfu ⊢; omega)
-          refine ⟨this.1, ?_, this.2.2⟩
-          refine Nat.le_trans this.2.1 ?_
-          simp only [entryMeasure, if_neg hm255, hnl, List.length_append, List.length_singleton]; omega
-    · -- answered with a completion code
-      rw [script_get_cc _ _ _ _ _ hc0, decodeGet_cc _ hc0]
+    generalize hx : send w.dev (getReq res rid acc.length len).cmd (getReq res rid acc.length len).payload = x
+    have hPx : P x.1 := by rw [← hx]; exact hp.keep _ _ _ hP
+    cases hdec : decodeGetRsp x.2 with
+    | ok p =>
+      obtain ⟨cc, next, data⟩ := p
       simp only []
-      by_cases hca : w.dev.script.next.1.code = 202
+      by_cases hca : cc = 202
       · simp only [hca, if_true]
-        rcases hm with ⟨hm, ha⟩ | ⟨hm1, hm16⟩
-        · subst hm; subst ha
+        rcases hm with hm | ⟨hm1, hm16⟩
+        · subst hm
           simp only [shrink_entire]
-          have := ih ⟨{ w.dev with script := w.dev.script.next.2 }, w.trace ++ [⟨getReq res rid ([] : List Nat).length len, [202]⟩]⟩
-            res rid 16 [] he (by simp) (Or.inr ⟨by omega, by omega⟩) (by simp [entryMeasure] at hfu ⊢; omega)
+          have := ih ⟨x.1, w.trace ++ [⟨getReq res rid acc.length len, x.2⟩]⟩
+            res rid 16 acc hPx hal (Or.inr ⟨by omega, by omega⟩) (by simp [entryMeasure] at hfu ⊢; omega)
           refine ⟨this.1, ?_, this.2.2⟩
           refine Nat.le_trans this.2.1 ?_
-          simp [entryMeasure]
+          simp [entryMeasure]; omega
         · have hm255 : m ≠ 255 := by omega
           by_cases h1 : m = 1
           · subst h1
             simp only [shrink_one hv]
-            exact ⟨(by intro h; cases h), (by simp only [List.length_append, List.length_singleton]; omega), (by first | rfl | trivial)⟩
+            exact ⟨(by intro h; cases h), (by simp only [List.length_append, List.length_singleton]; omega), hPx⟩
           · simp only [shrink_dec v hfl m (by omega) hm255]
-            have := ih ⟨{ w.dev with script := w.dev.script.next.2 }, w.trace ++ [⟨getReq res rid acc.length len, [202]⟩]⟩
-              res rid (m - 1) acc he hal (Or.inr ⟨by omega, by omega⟩)
+            have := ih ⟨x.1, w.trace ++ [⟨getReq res rid acc.length len, x.2⟩]⟩
+              res rid (m - 1) acc hPx hal (Or.inr ⟨by omega, by omega⟩)
               (by simp only [entryMeasure, if_neg hm255] at hfu; simp only [entryMeasure]; rw [if_neg (by omega)]; omega)
             refine ⟨this.1, ?_, this.2.2⟩
             refine Nat.le_trans this.2.1 ?_
             simp only [entryMeasure, if_neg hm255, List.length_append, List.length_singleton]
             rw [if_neg (by omega)]; omega
-      · simp only [hca, if_false, ne_eq, hc0, not_false_eq_true, if_true]
-        exact ⟨(by intro h; cases h), (by simp only [List.length_append, List.length_singleton]; omega), (by first | rfl | trivial)⟩
+      · simp only [hca, if_false]
+        by_cases hc0 : cc = 0
+        · subst hc0
+          simp only [ne_eq, not_true_eq_false, if_false]
+          by_cases hE : emptyAnswer v data = true
+          · simp only [hE, if_true]
+            exact ⟨(by intro h; cases h), (by simp only [List.length_append, List.length_singleton]; omega), hPx⟩
+          · simp only [hE, Bool.false_eq_true, if_false]
+            have hne : data ≠ [] := by
+              rcases hp.prog with he | hpr
+              · intro h; subst h; exact hE (by rw [emptyAnswer_nil, he])
+              · exact hpr w.dev res rid acc.length len next data hP hal hlen.1 hlen.2 (by rw [hx]; exact hdec)
+            have hdl : 1 ≤ data.length := by
+              cases data with
+              | nil => exact absurd rfl hne
+              | cons _ _ => simp
+            by_cases hdone : (acc ++ data).length ≥ 16
+            · simp only [hdone, if_true]
+              exact ⟨selEntry_ne_py _ _ _, (by simp only [List.length_append, List.length_singleton]; omega), hPx⟩
+            · simp only [hdone, if_false]
+              have hal' : (acc ++ data).length < 16 := by omega
+              have hgrow : acc.length + 1 ≤ (acc ++ data).length := by
+                simp only [List.length_append]; omega
+              have := ih ⟨x.1, w.trace ++ [⟨getReq res rid acc.length len, x.2⟩]⟩ res rid m (acc ++ data) hPx hal' hm
+                (by simp only [entryMeasure] at hfu ⊢; omega)
+              refine ⟨this.1, ?_, this.2.2⟩
+              refine Nat.le_trans this.2.1 ?_
+              simp only [entryMeasure, List.length_append, List.length_singleton] at hgrow ⊢; omega
+        · simp only [ne_eq, hc0, not_false_eq_true, if_true]
+          exact ⟨(by intro h; cases h), (by simp only [List.length_append, List.length_singleton]; omega), hPx⟩
+    | pyError s => exact absurd hdec (decodeGet_ne_py _ _)
+    | _ =>
+      simp only [castErr]
+      exact ⟨(by intro h; cases h), (by simp only [List.length_append, List.length_singleton]; omega), hPx⟩
+
+/-- the scripted device holds a 16-byte record and never completes a read without a byte -/
+def Lively (d : ScriptSel) : Prop := d.entry.length = 16 ∧ d.caps.Positive
+
+theorem script_entry_kept (d : ScriptSel) (cmd : Nat) (p : List Nat) : (scriptSend d cmd p).1.entry = d.entry := by
+  unfold scriptSend
+  split
+  · split
+    · rfl
+    · split <;> rfl
+  · split
+    · split
+      · rfl
+      · split <;> rfl
+    · split
+      · split
+        · rfl
+        · split <;> rfl
+      · rfl
+
+theorem script_caps_kept (d : ScriptSel) (cmd : Nat) (p : List Nat) :
+    (scriptSend d cmd p).1.caps = d.caps ∨ (scriptSend d cmd p).1.caps = d.caps.next.2 := by
+  unfold scriptSend
+  split
+  · split
+    · exact Or.inl rfl
+    · split <;> exact Or.inl rfl
+  · split
+    · split
+      · exact Or.inr rfl
+      · split <;> exact Or.inr rfl
+    · split
+      · split
+        · exact Or.inr rfl
+        · split <;> exact Or.inr rfl
+      · exact Or.inl rfl
+
+/-- The scripted device with short answers of at least one byte makes progress for EVERY variant -
+also for a loop without the empty-answer stop. -/
+theorem progress_script (v : Variant) : Progress v scriptSend Lively := by
+  refine ⟨?_, Or.inr ?_⟩
+  · intro d cmd p h
+    refine ⟨by rw [script_entry_kept]; exact h.1, ?_⟩
+    rcases script_caps_kept d cmd p with hc | hc <;> rw [hc]
+    · exact h.2
+    · exact h.2.next.1
+  · intro d res rid off len next data h hoff hl1 hl hdec
+    by_cases hc : d.script.next.1.code = 0
+    · rw [script_get_ok d res rid off len (by omega) hl hc, decodeGet_ok] at hdec
+      simp only [Outcome.ok.injEq, Prod.mk.injEq, true_and] at hdec
+      have hlen : 1 ≤ (cut d.caps.next.1
+          (if len = 0xFF then d.entry.drop off else (d.entry.drop off).take len)).length := by
+        apply cut_length_pos _ _ h.2.next.2
+        split
+        · simp only [List.length_drop, h.1]; omega
+        · simp only [List.length_take, List.length_drop, h.1]; omega
+      intro hd
+      rw [hdec.2, hd] at hlen
+      simp at hlen
+    · rw [script_get_cc d res rid off len hc, decodeGet_cc _ hc] at hdec
+      simp only [Outcome.ok.injEq, Prod.mk.injEq] at hdec
+      exact absurd hdec.1 hc
+
+/-- **The empty completed answer itself**: the repaired get_sel_entry raises RetryError on it - the
+request it answered was the last one. -/
+theorem entry_empty_gives_up (v : Variant) (he : v.emptyStop = true) (fuel : Nat) (w : World ScriptSel)
+    (res rid : Nat) (m : Int) (acc : List Nat)
+    (hs : w.dev.script.next.1.code = 0) (hc : w.dev.caps.next.1 = some 0) (hal : acc.length < 256) :
+    (entryLoop stdCfg v scriptSend (fuel + 1) w res rid m acc).out = .retryError ∧
+    (entryLoop stdCfg v scriptSend (fuel + 1) w res rid m acc).w.trace.length = w.trace.length + 1 := by
+  unfold entryLoop
+  simp only [xchg, script_get_ok _ _ _ _ _ hal (wireByte_lt _) hs, hc, cut_zero,
+    decodeGet_ok, std_ccShrink, show (0 : Nat) = 202 ↔ False by decide, if_false, ne_eq,
+    not_true_eq_false, emptyAnswer_nil, he, if_true, List.length_append, List.length_singleton, and_self]
 
 /-- **CAh for ever**: the repaired get_sel_entry asks FFh, 16, 15 … 1 - 17 requests - and raises
 RetryError. -/
@@ -336,31 +512,15 @@ theorem entry_code_propagates {σ} (cfg : Cfg) (v : Variant) (send : Send σ) (r
             simp [refusedWith, hdec, hz']
           split
           · exact stop _ (by intro c hc; rw [h0] at hc; cases hc)
-          · exact more _ _ h0
+          · split
+            · exact stop _ (by intro c hc; rw [h0] at hc; cases hc)
+            · exact more _ _ h0
     | _ =>
       refine stop _ ?_
       intro c hc
       simp [refusedWith, hdec] at hc
 
 /-! ### get-and-clear, repaired: bounded for every script; a failed Reserve ends it -/
-
-theorem script_entry_kept (d : ScriptSel) (cmd : Nat) (p : List Nat) : (scriptSend d cmd p).1.entry = d.entry := by
-  unfold scriptSend
-  split
-  · split
-    · rfl
-    · split <;> rfl
-  · split
-    · dsimp only
-      split
-      · rfl
-      · split <;> rfl
-    · split
-      · dsimp only
-        split
-        · rfl
-        · split <;> rfl
-      · rfl
 
 theorem decodeU16_ne_py (raw : List Nat) (s : String) : decodeU16Rsp raw ≠ .pyError s := by
   unfold decodeU16Rsp
@@ -377,13 +537,15 @@ theorem castErr_ne_nonterm {α β} (x : Outcome α) (hx : x ≠ .pyError "nonter
   | ok a => intro h; simp only [castErr, Outcome.pyError.injEq] at h; exact absurd h (by decide)
   | _ => intro h; cases h
 
-/-- **get_and_clear_sel_entry repaired, ANY outcome script** (Get / Delete and Reserve outcomes):
-the call ends - never out of fuel - after at most 35 requests per round of its budget (Reserve,
-≤ 33 Get SEL Entry, Delete). -/
-theorem gac_bound (v : Variant) (hv : Floored v) (hb : v.budget.isSome = true) :
-    ∀ (n : Nat) (w : World ScriptSel) (rid : Nat), w.dev.entry.length = 16 →
-      (getAndClear stdCfg v scriptSend n w rid).out ≠ .pyError "nontermination" ∧
-      (getAndClear stdCfg v scriptSend n w rid).w.trace.length ≤ w.trace.length + 35 * n := by
+/-- **get_and_clear_sel_entry repaired, under `Progress`** (any peer for a loop with the
+empty-answer stop; the scripted device - Get / Delete and Reserve outcomes, short answers of ≥ 1
+byte - for every floored variant): the call ends - never out of fuel - after at most 35 requests per
+round of its budget (Reserve, ≤ 33 Get SEL Entry, Delete). -/
+theorem gac_bound_gen {σ : Type} (v : Variant) (hv : Floored v) (hb : v.budget.isSome = true)
+    (send : Send σ) (P : σ → Prop) (hp : Progress v send P) :
+    ∀ (n : Nat) (w : World σ) (rid : Nat), P w.dev →
+      (getAndClear stdCfg v send n w rid).out ≠ .pyError "nontermination" ∧
+      (getAndClear stdCfg v send n w rid).w.trace.length ≤ w.trace.length + 35 * n := by
   intro n
   induction n with
   | zero =>
@@ -394,29 +556,28 @@ theorem gac_bound (v : Variant) (hv : Floored v) (hb : v.budget.isSome = true) :
     intro w rid he
     unfold getAndClear
     simp only [reserve, deleteEntry, xchg]
-    generalize hx1 : scriptSend w.dev reserveReq.cmd reserveReq.payload = x1
-    have he1 : x1.1.entry.length = 16 := by rw [← hx1, script_entry_kept]; exact he
+    generalize hx1 : send w.dev reserveReq.cmd reserveReq.payload = x1
+    have he1 : P x1.1 := by rw [← hx1]; exact hp.keep _ _ _ he
     cases hres : decodeU16Rsp x1.2 with
     | ok res =>
       simp only
-      have hgb := entry_bound v hv entryFuel ⟨x1.1, w.trace ++ [⟨reserveReq, x1.2⟩]⟩ res rid 255 [] he1 (by simp)
-        (Or.inl ⟨rfl, rfl⟩) (by simp [entryMeasure, entryFuel])
-      have hgdef : getSelEntry stdCfg v scriptSend ⟨x1.1, w.trace ++ [⟨reserveReq, x1.2⟩]⟩ rid res =
-          entryLoop stdCfg v scriptSend entryFuel ⟨x1.1, w.trace ++ [⟨reserveReq, x1.2⟩]⟩ res rid ((255 : Nat) : Int) [] := rfl
+      have hgb := entry_bound_gen v hv send P hp entryFuel ⟨x1.1, w.trace ++ [⟨reserveReq, x1.2⟩]⟩ res rid 255 [] he1
+        (by simp) (Or.inl rfl) (by simp [entryMeasure, entryFuel])
+      have hgdef : getSelEntry stdCfg v send ⟨x1.1, w.trace ++ [⟨reserveReq, x1.2⟩]⟩ rid res =
+          entryLoop stdCfg v send entryFuel ⟨x1.1, w.trace ++ [⟨reserveReq, x1.2⟩]⟩ res rid ((255 : Nat) : Int) [] := rfl
       rw [← hgdef] at hgb
-      generalize getSelEntry stdCfg v scriptSend ⟨x1.1, w.trace ++ [⟨reserveReq, x1.2⟩]⟩ rid res = g at hgb
-      obtain ⟨hg1, hg2, hg3⟩ := hgb
+      generalize getSelEntry stdCfg v send ⟨x1.1, w.trace ++ [⟨reserveReq, x1.2⟩]⟩ rid res = g at hgb
+      obtain ⟨hg1, hg2, heg⟩ := hgb
       have hg2' : g.w.trace.length ≤ w.trace.length + 34 := by
         have e33 : entryMeasure 255 [] = 33 := by decide
         rw [e33] at hg2
         simp only [List.length_append, List.length_singleton] at hg2; omega
-      have heg : g.w.dev.entry.length = 16 := by rw [hg3]; exact he1
       cases hgo : g.out with
       | ok p =>
         obtain ⟨e, nx⟩ := p
         simp only
-        generalize hx2 : scriptSend g.w.dev (deleteReq res rid).cmd (deleteReq res rid).payload = x2
-        have he2 : x2.1.entry.length = 16 := by rw [← hx2, script_entry_kept]; exact heg
+        generalize hx2 : send g.w.dev (deleteReq res rid).cmd (deleteReq res rid).payload = x2
+        have he2 : P x2.1 := by rw [← hx2]; exact hp.keep _ _ _ heg
         cases hdel : decodeU16Rsp x2.2 with
         | ok v' =>
           simp only
@@ -445,6 +606,32 @@ theorem gac_bound (v : Variant) (hv : Floored v) (hb : v.budget.isSome = true) :
       | _ => simp only [castErr]; exact ⟨(by intro h; cases h), by omega⟩
     | pyError s => exact absurd hres (decodeU16_ne_py _ _)
     | _ => simp only [castErr]; exact ⟨(by intro h; cases h), by simp only [List.length_append, List.length_singleton]; omega⟩
+
+/-- **get_and_clear_sel_entry without the empty-answer stop never returns** from a device that
+completes every Get SEL Entry without a record byte: ONE Reserve SEL, then the inner get_sel_entry
+uses all the fuel it is given (`entryFuel` identical requests) - whatever the retry budget (≥ 1) is,
+it is never consulted. -/
+theorem gac_never_returns_empty (v : Variant) (hv : v.emptyStop = false) (n : Nat) (w : World ScriptSel) (rid : Nat)
+    (hs : w.dev.script = ⟨[], .completed⟩) (hc : w.dev.caps = Caps.zero) (hp : w.dev.rplan = []) :
+    (getAndClear stdCfg v scriptSend (n + 1) w rid).out = .pyError "nontermination" ∧
+    (getAndClear stdCfg v scriptSend (n + 1) w rid).w.trace.length = w.trace.length + 1 + entryFuel := by
+  unfold getAndClear
+  simp only [reserve, xchg, script_reserve_nil _ hp, decodeU16_of_ok]
+  generalize hw1 : (⟨{ w.dev with lastRes := w.dev.lastRes + 1, rplan := [] }, w.trace ++
+    [⟨reserveReq, [0, (w.dev.lastRes + 1) % 256, (w.dev.lastRes + 1) / 256 % 256]⟩]⟩ : World ScriptSel) = w1
+  have hs1 : w1.dev.script = ⟨[], .completed⟩ := by rw [← hw1]; exact hs
+  have hc1 : w1.dev.caps = Caps.zero := by rw [← hw1]; exact hc
+  have hl1 : w1.trace.length = w.trace.length + 1 := by rw [← hw1]; simp
+  have := entry_spins_empty v hv entryFuel w1 ((w.dev.lastRes + 1) % 256 + 256 * ((w.dev.lastRes + 1) / 256 % 256)) rid
+    ((stdCfg.entire : Nat) : Int) [] hs1 hc1 (by simp)
+  simp only [getSelEntry]
+  generalize entryLoop stdCfg v scriptSend entryFuel w1 _ rid _ [] = g at this ⊢
+  obtain ⟨h1, h2⟩ := this
+  rw [h1]
+  simp only [castErr]
+  refine ⟨trivial, ?_⟩
+  rw [h2]
+  simp only [List.length_append, List.length_replicate, hl1]
 
 /-! A Reserve SEL that is refused (any peer): -/
 
